@@ -420,6 +420,7 @@ class Gen:
         elif t == 'any':
             opts += [(3, lambda: self.expr(self.some_type(), sc, d)),
                      (1.6, lambda: self.mixed_member(sc, d)),
+                     (0.9, lambda: self.to_dict(sc, d)),
                      (2, lambda: self.oos_read(sc)),
                      (0.4, lambda: self.oos_call(sc, d)),
                      (1, lambda: ['bin', r.choice(('and', 'or')), self.expr('any', sc, d - 1), self.expr('any', sc, d - 1)])]
@@ -512,6 +513,19 @@ class Gen:
         if r.random() < 0.06:
             els.insert(r.randrange(len(els) + 1), self.lit(r.choice(('int', 'any'))))     # no member: raises when reached
         return ['list', els]
+
+    def to_dict(self, sc, d):
+        """`xs.toDict(key lambda [, value lambda])`: two lambdas of one call, each depending on ITS element"""
+        r = self.rng
+        e, el = self.some_list(sc, d)
+        lsc = self.lam_scope(sc, el)
+        key = self.expr(r.choice(('int', 'str')), lsc, d - 1) if r.random() < 0.6 else self.var('$1')
+        if is_rec(el):
+            key = ['member', self.var('$1'), r.choice([f for f, ft in el[1] if ft in ('int', 'str')] or ['n'])]
+        args = [key]
+        if r.random() < 0.75:
+            args.append(self.expr(self.some_type(True), lsc, d - 1) if r.random() < 0.7 else ['list', [self.var('$1'), key]])
+        return ['method', e, 'toDict', args, []]
 
     def mixed_member(self, sc, d):
         """`.name` on a heterogeneous collection (alone, next to the `select($.name)` it is documented to equal, consumed)"""
@@ -1036,14 +1050,59 @@ def env_plain(env):
     return {'layers': [[[n, v] for n, _, v in layer] for layer in env['layers']], 'entry': env['entry'], 'at': env['at']}
 
 
+# ---------------------------------------------------------------- arguments passed by keyword
+#
+# `name => value` passes an argument to the parameter of that name; the names are the ones the naming convention of the
+# context gives the parameters (`keySelector` for the Python parameter `key_selector`).  HOW an argument is passed changes
+# nothing about what it means - in particular a lambda passed by keyword is still a lambda: evaluated per element, `$` bound
+# to the element.  (generator steering only: the references have their own tables)
+METHOD_PARAMS = {
+    'select': ('selector',), 'where': ('predicate',), 'selectMany': ('selector',), 'orderBy': ('selector',),
+    'orderByDescending': ('selector',), 'takeWhile': ('predicate',), 'skipWhile': ('predicate',), 'indexWhere': ('predicate',),
+    'toDict': ('keySelector', 'valueSelector'), 'aggregate': ('selector', 'seed'), 'sum': ('initial',), 'first': ('default',),
+    'take': ('count',), 'skip': ('count',), 'any': ('predicate',), 'all': ('predicate',),
+}
+
+
+def kwify(e, rng, p=0.22):
+    """the program with some arguments of builtin methods passed BY KEYWORD: the trailing arguments from a random position
+    on, now and then in another order, now and then under a name that is NOT the parameter's (the Python spelling
+    `key_selector`, a trailing underscore, another case, a neighbour's name): expected NoMatchingMethodException"""
+    t = e[0]
+    if t in ('lit', 'kw', 'var'):
+        return e
+    out = list(e)
+    for c, path in children(e):
+        out = replace_at(out, path, kwify(c, rng, p))
+    if t == 'method' and not out[4] and out[3] and out[2] in METHOD_PARAMS and len(out[3]) <= len(METHOD_PARAMS[out[2]]) \
+            and rng.random() < (p if len(METHOD_PARAMS[out[2]]) == 1 else 2 * p):
+        names = METHOD_PARAMS[out[2]]
+        k = rng.randrange(len(out[3]))                    # args[k:] go by keyword
+        kw = [[['kw', names[i]], a] for i, a in enumerate(out[3]) if i >= k]
+        if len(kw) > 1 and rng.random() < 0.4:
+            kw.reverse()
+        if rng.random() < 0.12:
+            i = rng.randrange(len(kw))
+            good = kw[i][0][1]
+            wrong = [w for w in (to_snake(good), good + '_', good.capitalize(), good.lower(), good.upper(), good[:-1],
+                                 'selector' if good != 'selector' else 'predicate', 'keySelector' if out[2] != 'toDict' else 'key')
+                     if w != good and is_keyword(w) and w not in names]
+            if wrong:
+                kw[i] = [['kw', rng.choice(wrong)], kw[i][1]]
+        out = ['method', out[1], out[2], out[3][:k], kw]
+    return out
+
+
 def program_env(rng, max_depth, p_env=0.3):
-    """-> (ast, doc, result type, env): a program that also reads variables the HOST bound in its context chain; env is
-    None for the plain entry `evaluate(data=doc, context=child of the library context)`"""
+    """-> (ast, doc, result type, env): a program that also reads variables the HOST bound in its context chain and passes
+    arguments of builtin methods by keyword; env is None for the plain entry `evaluate(data=doc, context=child of the
+    library context)`"""
     if rng.random() >= p_env:
-        return program(rng, max_depth) + (None,)
+        ast, doc, t = program(rng, max_depth)
+        return kwify(ast, rng), doc, t, None
     env = gen_host_env(rng)
     ast, doc, t = program(rng, max_depth, host_scope(env))
-    return ast, doc, t, env_plain(env)
+    return kwify(ast, rng), doc, t, env_plain(env)
 
 
 def program(rng, max_depth, host_vars=None):
